@@ -17,6 +17,10 @@ type ABranch struct {
 	Pattern     interface{} `json:"pattern,omitempty"`
 	Guard       *Prog       `json:"guard,omitempty"`
 	GuardNative bool        `json:"guardNative,omitempty"`
+	// GuardScribbles: the native guard writes into the bindings map it
+	// is given before deciding (only generated where results are not
+	// compared with the step model).
+	GuardScribbles bool `json:"guardScribbles,omitempty"`
 	Target      string      `json:"target,omitempty"`
 }
 
@@ -72,7 +76,11 @@ func (a *ASpec) Build() *core.Spec {
 				}
 				if ab.Guard != nil {
 					if ab.GuardNative {
-						b.Guard = ab.Guard.Native(NativeCopy)
+						mode := NativeCopy
+						if ab.GuardScribbles {
+							mode = NativeScribble
+						}
+						b.Guard = ab.Guard.Native(mode)
 					} else {
 						b.GuardSource = &core.ActionSource{Interpreter: "ecmascript", Source: ab.Guard.ES()}
 					}
@@ -120,6 +128,14 @@ type SpecOpts struct {
 	// Derive: action nodes get branches whose patterns inspect the
 	// values their action produced (sub-arrays, nested keys).
 	Derive bool
+	// Scribble: native guards may write into the map they are given.
+	Scribble bool
+	// ArrayVar: a message branch whose pattern has an array with a
+	// variable in front of a constant (single candidate per message).
+	ArrayVar bool
+	// IneqBound: an action binds an inequality variable to an integer
+	// and a message branch uses it.
+	IneqBound bool
 	// Lively: specs that keep moving -- message nodes end with a
 	// catch-all branch, action nodes with a default branch, targets
 	// are mostly existing nodes.
@@ -291,11 +307,20 @@ func GenSpec(t *rapid.T, o SpecOpts) *ASpec {
 						// bindings branching: patterns over binding keys
 						b.Pattern = genBindingsPattern(t, bl)
 					}
+					if _, bare := b.Pattern.(string); bare && n.BranchType != "message" {
+						// a bare variable under bindings branching binds the
+						// whole bindings, whose variable-named keys would then
+						// be re-used as a pattern (outside the supported
+						// fragment, and the wording of the resulting error
+						// depends on map order)
+						b.Pattern = genBindingsPattern(t, bl+".nb")
+					}
 				}
 				if rapid.IntRange(0, 2).Draw(t, bl+".hg") == 0 {
 					b.Guard = GenProg(t, ProgOpts{Guard: true, Emit: o.Emit, Fail: o.GuardFail, MaxOps: 3}, bl+".g")
 					if o.NativeToo && rapid.IntRange(0, 2).Draw(t, bl+".gn") == 0 {
 						b.GuardNative = true
+						b.GuardScribbles = o.Scribble && rapid.Bool().Draw(t, bl+".gs")
 					}
 				}
 				n.Branches = append(n.Branches, b)
@@ -445,8 +470,15 @@ func GenLivelySpec(t *rapid.T, o SpecOpts) *ASpec {
 			if rapid.IntRange(0, 3).Draw(t, bl+".hg") == 0 {
 				b.Guard = GenProg(t, ProgOpts{Guard: true, Emit: o.Emit, Fail: o.GuardFail, MaxOps: 2}, bl+".g")
 				b.GuardNative = o.NativeToo && rapid.IntRange(0, 2).Draw(t, bl+".gn") == 0
+				b.GuardScribbles = b.GuardNative && o.Scribble && rapid.Bool().Draw(t, bl+".gs")
+				if b.GuardScribbles && rapid.Bool().Draw(t, bl+".gnp") {
+					b.HasPattern, b.Pattern = false, nil // the guard then gets the step's own bindings
+				}
 			}
 			n.Branches = append(n.Branches, b)
+		}
+		if o.ArrayVar && rapid.Bool().Draw(t, l+".av") {
+			n.Branches = append([]ABranch{{HasPattern: true, Pattern: map[string]interface{}{"l": []interface{}{"?e", "k"}}, Target: target(l + ".avto")}}, n.Branches...)
 		}
 		if rapid.IntRange(0, 3).Draw(t, l+".catch") > 0 {
 			n.Branches = append(n.Branches, ABranch{HasPattern: true, Pattern: map[string]interface{}{}, Target: rapid.SampledFrom(all).Draw(t, l+".catchto")})
@@ -516,6 +548,18 @@ func GenLivelySpec(t *rapid.T, o SpecOpts) *ASpec {
 		an.Action.Ops = append([]Op{{Op: "set", K: "?p", V: val}}, an.Action.Ops...)
 		mn := a.Nodes[rapid.SampledFrom(mnodes).Draw(t, "bindvar.m")]
 		mn.Branches = append([]ABranch{{HasPattern: true, Pattern: map[string]interface{}{"c": "?p"}, Target: rapid.SampledFrom(all).Draw(t, "bindvar.to")}}, mn.Branches...)
+	}
+	if o.IneqBound && rapid.Bool().Draw(t, "ineq") {
+		// an action computes an integer bound for an inequality variable;
+		// a message branch then compares against it
+		an := a.Nodes[rapid.SampledFrom(anodes).Draw(t, "ineq.a")]
+		v := rapid.SampledFrom([]string{"?<lim", "?>=lim", "?!=lim"}).Draw(t, "ineq.v")
+		an.Action.Ops = append([]Op{{Op: "set", K: v, V: float64(rapid.IntRange(1, 3).Draw(t, "ineq.b"))}}, an.Action.Ops...)
+		if rapid.Bool().Draw(t, "ineq.plain") {
+			an.Action.Ops = append([]Op{{Op: "set", K: "?lim", V: float64(rapid.IntRange(1, 3).Draw(t, "ineq.p"))}}, an.Action.Ops...)
+		}
+		mn := a.Nodes[rapid.SampledFrom(mnodes).Draw(t, "ineq.m")]
+		mn.Branches = append([]ABranch{{HasPattern: true, Pattern: map[string]interface{}{"c": v}, Target: rapid.SampledFrom(all).Draw(t, "ineq.to")}}, mn.Branches...)
 	}
 	if o.UserErrorNode && rapid.IntRange(0, 3).Draw(t, "uerr") == 0 {
 		a.Nodes["error"] = &ANode{BranchType: "bindings", Branches: []ABranch{
